@@ -112,9 +112,13 @@ class Interp:
                 raise Unsupported(f"{self.func.qual}: fork explosion")
             base = work.pop()
             trial = _fork(base)
+            mark = base.counter[0]
             try:
                 out += fn(trial)
             except NeedFork as nf:
+                # the statement is evaluated again under each decision: give its reads the same ids again, so that the
+                # recorded condition speaks about the reads of the path it is recorded on
+                base.counter[0] = mark
                 prior = [pol for c, pol in base.conds if c.desc == nf.cond.desc]
                 if prior:
                     # the same atomic condition was decided earlier on this path: stay consistent
@@ -353,7 +357,40 @@ class Interp:
             raise Unsupported(f"{self.func.qual}:{s.lineno}: loop over {unparse(s.iter)}")
         return self._loop_body(s, s.body, loop, st, sub)
 
+    def _unroll_while(self, s: ast.While, st: State) -> t.Optional[t.List[t.Tuple[State, Outcome]]]:
+        """A loop whose test has a definite value in every iteration (`while len(parts) < 3`, a counter from a constant)
+        is executed iteration by iteration on the abstract state; None when some iteration is not decided."""
+        if s.orelse:
+            return None
+        cur = _fork(st)
+        done: t.List[t.Tuple[State, Outcome]] = []
+        for _ in range(33):
+            try:
+                c = self.ev.truth(self.ev.eval(s.test, cur), s.test, cur)
+            except Unsupported:
+                return None
+            if not isinstance(c, bool):
+                return None
+            if not c:
+                return done + [(cur, Outcome("fall"))]
+            try:
+                outs = self.block(list(s.body), cur)
+            except Unsupported:
+                return None
+            nxt = [x for x, o in outs if o.kind in ("fall", "continue")]
+            brk = [x for x, o in outs if o.kind == "break"]
+            done += [(x, o) for x, o in outs if o.kind in ("raise", "return")]
+            if len(nxt) + len(brk) != 1:
+                return None
+            if brk:
+                return done + [(brk[0], Outcome("fall"))]
+            cur = nxt[0]
+        return None
+
     def s_While(self, s: ast.While, st: State) -> t.List[t.Tuple[State, Outcome]]:
+        un = self._unroll_while(s, st)
+        if un is not None:
+            return un
         loop = LoopInfo(st.new_id(), s)
         loop.count = Lin.atom(("while", loop.lid))
         sub = _fork(st)
@@ -413,7 +450,7 @@ class Interp:
         cloop: LoopInfo = chosen.loops[-1]  # type: ignore[attr-defined]
         cloop.reads = chosen.reads[base_reads:]
         after = _fork(st)
-        after.counter = st.counter
+        after.counter = [max([st.counter[0]] + [x.counter[0] for x, _o in outs])]
         for name, v0 in views.items():
             v1 = chosen.env.get(name)
             if not isinstance(v1, SView):
